@@ -1,6 +1,220 @@
-//! C19: not implemented yet.
+//! C19: ingredient-graph walks on crafted manifest stores.
+//!
+//! A case describes a graph: `nodes[i] = {"u": update?, "h": hash-binding assertion?, "ings": [[target, has_manifest, rel, hash_ok?], ...]}`
+//! (`rel`: 0 componentOf, 1 parentOf, 2 inputTo; targets `>= nodes.len()` are labels of manifests that are not in the store).
+//!
+//! modes:
+//!   "walk"  — unsigned in-memory `Store` (claims inserted with `insert_restored_claim`), runs
+//!             `get_claim_referenced_manifests` (through the hook) and `get_hash_binding_manifest` from `root`;
+//!             reports result class, cyclic path, collected manifest map, reference map, log (code, label), binding, µs.
+//!   "jumbf" — the same unsigned store serialised with `to_jumbf_internal` and read back with
+//!             `Reader::with_stream("application/c2pa")` (used by the stack probe: nothing is signed, the walks run before
+//!             any signature check).
+//!   "e2e"   — every manifest signed (ed25519 fixture), targets hashed where `hash_ok`, root embedded last in a JPEG;
+//!             read with `Reader` (state, codes) and with `Store::from_stream` (log of `ingredient_checks`).
+use std::collections::HashMap;
+use std::io::Cursor;
+use std::time::Instant;
+
+use c2pa::status_tracker::{ErrorBehavior, LogKind, StatusTracker};
+use c2pa::verif_hooks::c19::*;
+use c2pa::{ClaimGeneratorInfo, Context, DigitalSourceType, HashedUri, Reader, Relationship, ValidationResults};
 use serde_json::{json, Value};
 
-pub fn run(_case: &Value) -> Value {
+use crate::e2e;
+use crate::util::*;
+
+struct Node {
+    update: bool,
+    hashbind: bool,
+    ings: Vec<(usize, bool, u64, bool)>,
+}
+
+fn parse_nodes(case: &Value) -> Vec<Node> {
+    case["nodes"]
+        .as_array()
+        .expect("nodes")
+        .iter()
+        .map(|n| Node {
+            update: n["u"].as_u64().unwrap_or(0) != 0,
+            hashbind: n["h"].as_u64().unwrap_or(0) != 0,
+            ings: n["ings"]
+                .as_array()
+                .expect("ings")
+                .iter()
+                .map(|r| {
+                    (
+                        r[0].as_u64().expect("tgt") as usize,
+                        r[1].as_u64().unwrap_or(1) != 0,
+                        r[2].as_u64().unwrap_or(0),
+                        r.get(3).and_then(|x| x.as_u64()).unwrap_or(1) != 0,
+                    )
+                })
+                .collect(),
+        })
+        .collect()
+}
+
+fn rel_of(r: u64) -> Relationship {
+    match r {
+        1 => Relationship::ParentOf,
+        2 => Relationship::InputTo,
+        _ => Relationship::ComponentOf,
+    }
+}
+
+struct Names {
+    labels: Vec<String>,
+    index: HashMap<String, usize>,
+}
+
+impl Names {
+    fn label(&self, i: usize) -> String {
+        if i < self.labels.len() {
+            self.labels[i].clone()
+        } else {
+            format!("verif:urn:c2pa:00000000-0000-4000-8000-{:012x}", i)
+        }
+    }
+    /// index of a node label (missing labels map back to their index too)
+    fn idx(&self, l: &str) -> Value {
+        if let Some(i) = self.index.get(l) {
+            return json!(i);
+        }
+        if let Some(h) = l.strip_prefix("verif:urn:c2pa:00000000-0000-4000-8000-") {
+            if let Ok(i) = usize::from_str_radix(h, 16) {
+                return json!(i);
+            }
+        }
+        json!(l)
+    }
+    /// canonical form of a log label: a bare manifest label -> index; an assertion URI -> [src, assertion label]
+    fn canon(&self, l: &str) -> Value {
+        if let Some(rest) = l.strip_prefix("self#jumbf=/c2pa/") {
+            let mut it = rest.splitn(2, '/');
+            let m = it.next().unwrap_or("");
+            let tail = it.next().unwrap_or("");
+            let a = tail.strip_prefix("c2pa.assertions/").unwrap_or(tail);
+            return json!([self.idx(m), a]);
+        }
+        self.idx(l)
+    }
+}
+
+/// unsigned claims (v2 ingredient assertions with an all-zero hash), inserted in index order, root inserted last
+fn craft_unsigned(nodes: &[Node], root: usize) -> (Store, Names) {
+    let mut claims: Vec<Claim> = (0..nodes.len()).map(|_| Claim::new("verif-harness", Some("verif"), 2)).collect();
+    let labels: Vec<String> = claims.iter().map(|c| c.label().to_owned()).collect();
+    let index = labels.iter().cloned().enumerate().map(|(i, l)| (l, i)).collect();
+    let names = Names { labels, index };
+    for (i, n) in nodes.iter().enumerate() {
+        let c = &mut claims[i];
+        c.add_claim_generator_info(ClaimGeneratorInfo::new("verif"));
+        if n.update {
+            set_update_manifest(c, true);
+        }
+        if n.hashbind {
+            let mut dh = DataHash::new("jumbf manifest", "sha256");
+            dh.set_hash(vec![0u8; 32]);
+            c.add_assertion(&dh).expect("data hash");
+        }
+        for (t, has_manifest, rel, _) in &n.ings {
+            let uri = if *has_manifest {
+                Some(HashedUri::new(to_manifest_uri(&names.label(*t)), Some("sha256".to_string()), &[0u8; 32]))
+            } else {
+                None
+            };
+            add_ingredient_v2(c, rel_of(*rel), uri).expect("ingredient assertion");
+        }
+    }
+    let mut store = Store::new();
+    let mut slots: Vec<Option<Claim>> = claims.into_iter().map(Some).collect();
+    for i in (0..nodes.len()).filter(|i| *i != root).chain(std::iter::once(root)) {
+        let c = slots[i].take().expect("claim");
+        insert_restored_claim(&mut store, names.label(i), c);
+    }
+    (store, names)
+}
+
+fn log_json(log: &StatusTracker, names: &Names, only_fn: Option<&[&str]>) -> Vec<Value> {
+    log.logged_items()
+        .iter()
+        .filter(|i| only_fn.map(|f| f.contains(&i.function.as_ref())).unwrap_or(true))
+        .map(|i| {
+            let k = match i.kind {
+                LogKind::Success => "s",
+                LogKind::Informational => "i",
+                LogKind::Failure => "f",
+            };
+            json!([k, i.validation_status.as_deref().unwrap_or(""), names.canon(i.label.as_ref())])
+        })
+        .collect()
+}
+
+fn walk(case: &Value) -> Value {
+    let nodes = parse_nodes(case);
+    let root = case["root"].as_u64().unwrap_or(0) as usize;
+    let stop = case["stop"].as_u64().unwrap_or(0) != 0;
+    let (store, names) = craft_unsigned(&nodes, root);
+    let claim = store.get_claim(&names.label(root)).expect("root claim");
+    let mut log = StatusTracker::with_error_behavior(if stop { ErrorBehavior::StopOnFirstError } else { ErrorBehavior::ContinueWhenPossible });
+    let t0 = Instant::now();
+    let (r, map, refs) = store.verif_c19_referenced(claim, &mut log);
+    let us_ref = t0.elapsed().as_micros() as u64;
+    let t1 = Instant::now();
+    let binding = store.verif_c19_hash_binding_manifest(claim);
+    let us_bind = t1.elapsed().as_micros() as u64;
+    let mut map: Vec<Value> = map.iter().map(|l| names.idx(l)).collect();
+    map.sort_by_key(|v| v.as_u64().unwrap_or(u64::MAX));
+    let mut refs: Vec<(u64, Vec<u64>)> = refs
+        .iter()
+        .map(|(k, v)| {
+            let mut s: Vec<u64> = v.iter().map(|l| names.idx(l).as_u64().unwrap_or(u64::MAX)).collect();
+            s.sort();
+            (names.idx(k).as_u64().unwrap_or(u64::MAX), s)
+        })
+        .collect();
+    refs.sort();
+    let (rc, detail) = match &r {
+        Ok(()) => ("ok".to_string(), Value::Null),
+        Err(c2pa::Error::CyclicIngredients { claim_label_path }) => (
+            "CyclicIngredients".to_string(),
+            Value::Array(claim_label_path.iter().map(|l| names.idx(l)).collect()),
+        ),
+        Err(c2pa::Error::ClaimMissing { label }) => ("ClaimMissing".to_string(), names.idx(label)),
+        Err(e) => (err_class(e), json!(format!("{e}"))),
+    };
+    json!({"r": rc, "detail": detail, "map": map, "refs": refs, "log": log_json(&log, &names, None),
+           "binding": binding.map(|l| names.idx(&l)), "us_ref": us_ref, "us_bind": us_bind})
+}
+
+fn jumbf(case: &Value) -> Value {
+    let nodes = parse_nodes(case);
+    let root = case["root"].as_u64().unwrap_or(0) as usize;
+    let (store, _names) = craft_unsigned(&nodes, root);
+    let bytes = to_jumbf(&store, 0).expect("jumbf");
+    let len = bytes.len();
+    let t0 = Instant::now();
+    let r = Reader::from_context(Context::new()).with_stream("application/c2pa", Cursor::new(bytes));
+    let us = t0.elapsed().as_micros() as u64;
+    match r {
+        Ok(reader) => json!({"r": "ok", "state": format!("{:?}", reader.validation_state()), "len": len, "us": us}),
+        Err(e) => json!({"r": "err", "kind": err_class(&e), "len": len, "us": us}),
+    }
+}
+
+pub fn run(case: &Value) -> Value {
+    match case["mode"].as_str().unwrap_or("walk") {
+        "walk" => walk(case),
+        "jumbf" => jumbf(case),
+        "e2e" => e2e_case(case),
+        m => json!({"r": "bad-mode", "mode": m}),
+    }
+}
+
+// ------------------------------------------------------------------------------------------------ signed stores
+
+fn e2e_case(case: &Value) -> Value {
+    let _ = (case, e2e::FIXTURES, DigitalSourceType::Empty, ValidationResults::default());
     json!({"r": "unimplemented"})
 }
